@@ -247,6 +247,10 @@ def extract(src=SRC, verbose=False):
 
 
 def load_raw(src=SRC, use_cache=True):
+    if os.path.realpath(src) != os.path.realpath(SRC):
+        raw = extract(src)          # scratch trees: per-unit cache only
+        raw["meta"]["cache"] = "scratch"
+        return raw
     key = tree_hash(src)
     os.makedirs(CACHE, exist_ok=True)
     path = os.path.join(CACHE, key + ".pkl")
